@@ -141,7 +141,8 @@ def sp_config(tmpdir, md_docs, entity_id=SP_X, key_name='spX', enc=('spXenc1',),
                                                   (SLO_X + '/p', BINDING_HTTP_POST)]}}
     sp.update(spopts)
     c = {'entityid': entity_id, 'service': {'sp': sp}, 'key_file': key(key_name), 'cert_file': crt(key_name),
-         'xmlsec_binary': XMLSEC, 'metadata': {'local': [write_md(tmpdir, d) for d in md_docs]}}
+         'xmlsec_binary': XMLSEC, 'metadata': {'local': [write_md(tmpdir, d) for d in md_docs]},
+         'allow_unknown_attributes': True}
     if enc:
         c['encryption_keypairs'] = [{'key_file': key(n), 'cert_file': crt(n)} for n in enc]
     if top:
